@@ -206,7 +206,10 @@ def scan(repo: Repo):
                 in_scope = True
             if not in_scope or parent is not None and not is_filter_mod:
                 continue
-            dv = data_vars(fn, is_filter_mod and (cls is None or fn.name == "__call__"))
+            # a public module-level function of a filters module (or a __call__) is (registrable as) a filter: all its parameters
+            # hold template values. A private helper (`_name`) is called by filters with whatever they pass: its parameters are
+            # data only where their annotation says so (object / Any / untyped).
+            dv = data_vars(fn, is_filter_mod and ((cls is None and not fn.name.startswith("_")) or fn.name == "__call__"))
             if _decorated_first_param_safe(fn) and fn.args.args:
                 dv.pop(fn.args.args[0].arg, None)
             for n in own_nodes(fn):
